@@ -275,6 +275,126 @@ func failReturn(r *ssa.Return) bool {
 	return false
 }
 
+// failExit: every path from s ends in a return / panic (or leaves the region)
+// without appending anything and without completing the row.
+func failExit(s *ssa.BasicBlock, rg rowRegion, gen map[*ssa.BasicBlock][]*rowSet) bool {
+	seen := map[*ssa.BasicBlock]bool{}
+	var walk func(b *ssa.BasicBlock) bool
+	walk = func(b *ssa.BasicBlock) bool {
+		if seen[b] {
+			return true
+		}
+		seen[b] = true
+		if rg.kind == "loop" && b == rg.header {
+			return false // the iteration completes
+		}
+		if !rg.blocks[b] {
+			return true // left the row loop
+		}
+		if len(gen[b]) > 0 {
+			return false
+		}
+		if len(b.Succs) == 0 {
+			if rg.kind == "body" {
+				if r, ok := b.Instrs[len(b.Instrs)-1].(*ssa.Return); ok {
+					// a return shared with the ordinary flow counts as completion unless it is reached from the error arm only
+					for _, p := range b.Preds {
+						if !seen[p] {
+							return true // shared return block: nothing is appended after the join, the row stays as it is
+						}
+					}
+					_ = r
+				}
+			}
+			return true
+		}
+		for _, n := range b.Succs {
+			if !walk(n) {
+				return false
+			}
+		}
+		return true
+	}
+	return walk(s)
+}
+
+// errFeasible: the error value can be non-nil because of repository code — it
+// derives from a sentinel, errors.New / fmt.Errorf, or the error result of a
+// repository function that (transitively) hands out such an error.  An error
+// that can only be propagated from a third-party call (the CBOR encoder writing
+// into a bytes.Buffer, an Arrow builder) is taken as not occurring for pdata
+// values: the recorded assumption under which the error arms that merely
+// `break` out of a value switch in the attribute builders are dead.
+var errFeasibleMemo = map[*ssa.Function]int{} // 0 unknown, 1 busy, 2 no, 3 yes
+
+func errFeasible(v ssa.Value, depth int) bool {
+	if depth > 6 {
+		return true
+	}
+	res := false
+	core.BackSlice(v, func(x ssa.Value) bool {
+		if res {
+			return false
+		}
+		switch y := x.(type) {
+		case *ssa.UnOp:
+			if g, ok := y.X.(*ssa.Global); ok && g.Pkg != nil && core.InRepo(g.Pkg.Pkg.Path()) && isErrorType(y.Type()) {
+				res = true
+				return false
+			}
+		case *ssa.Call:
+			f := core.CalleeObj(y)
+			if f != nil && f.Pkg() != nil && (f.Pkg().Path() == "errors" && f.Name() == "New" || f.Pkg().Path() == "fmt" && f.Name() == "Errorf") {
+				res = true
+				return false
+			}
+			if callee := y.Call.StaticCallee(); callee != nil && core.InRepo(core.FnPkgPath(callee)) && len(callee.Blocks) > 0 {
+				if strings.HasSuffix(core.FnPkgPath(callee), "/werror") {
+					return true // Wrap(err): look at what is wrapped
+				}
+				if fnMayFail(callee, depth+1) {
+					res = true
+				}
+				return false
+			}
+			if y.Call.IsInvoke() && isErrorType(y.Type()) {
+				// interface call returning an error: unknown implementation
+				if n := core.NamedOf(y.Call.Value.Type()); n != nil && n.Obj().Pkg() != nil && core.InRepo(n.Obj().Pkg().Path()) {
+					res = true
+				}
+				return false
+			}
+			return false // third-party call: not followed
+		}
+		return true
+	})
+	return res
+}
+
+func fnMayFail(fn *ssa.Function, depth int) bool {
+	switch errFeasibleMemo[fn] {
+	case 1, 2:
+		return false
+	case 3:
+		return true
+	}
+	errFeasibleMemo[fn] = 1
+	res := false
+	for _, r := range core.Returns(fn) {
+		for _, x := range r.Results {
+			if isErrorType(x.Type()) && !core.IsNilConst(x) && errFeasible(x, depth) {
+				res = true
+			}
+		}
+	}
+	if res {
+		errFeasibleMemo[fn] = 3
+	} else {
+		errFeasibleMemo[fn] = 2
+	}
+	return res
+}
+
 type rowRegion struct {
 	fn     *ssa.Function
 	kind   string // loop | body
@@ -440,7 +560,12 @@ func analyseRows(fn *ssa.Function, summaries func(*ssa.Function) *rowSet, emptyF
 			fe := failEdge(b)
 			for si, s := range b.Succs {
 				if si == fe {
-					continue
+					// the error arm: a failure exit (leaves without completing the row), or an
+					// arm that carries on with the row.  The latter is followed when the error
+					// can actually be produced by repository code (see errFeasible).
+					if failExit(s, rg, gen) || !errFeasible(core.IfOf(b).Cond.(*ssa.BinOp).X, 0) {
+						continue
+					}
 				}
 				if inf, ok := infeasible[b]; ok && inf == si {
 					continue
@@ -502,7 +627,14 @@ func analyseRows(fn *ssa.Function, summaries func(*ssa.Function) *rowSet, emptyF
 					vs = append(vs, n)
 				}
 				sort.Ints(vs)
-				findings = append(findings, rowFinding{k, vs, rg.header.Instrs[0].Pos()})
+				where := fn.Pos()
+				for _, hi := range rg.header.Instrs {
+					if hi.Pos() != token.NoPos {
+						where = hi.Pos()
+						break
+					}
+				}
+				findings = append(findings, rowFinding{k, vs, where})
 			}
 		}
 		if rg.kind == "body" {
